@@ -89,7 +89,7 @@ def gen_pipeline(rng, n_rec, allow_sleep=True, family=False):
     return dict(
         loader=dict(rules=lrules, default=["ret", 2, deltas[0]]),
         steps=[dict(flavour=f, rules=srules[i], default=["ret", 2, deltas[i + 1]]) for i, f in enumerate(flavours)],
-        sleeps=sleeps, members=members, outcome=outcome,
+        sleeps=sleeps, members=members, outcome=outcome, fn_step=rng.random() < 0.4,
     )
 
 
@@ -101,6 +101,9 @@ def build_inner(spec, with_sleep):
     for i, st in enumerate(spec["steps"], 1):
         cls = getattr(A, f"c14_step{i}{st['flavour']}")
         app = app + cls(plan={str(k): v for k, v in st["rules"].items()}, default=st["default"])
+    if spec.get("fn_step"):
+        # a function-style app with mutable positional and keyword constructor arguments that it mutates
+        app = app + A.make_fn_step()
     return app
 
 
@@ -110,6 +113,8 @@ def model_steps(spec):
         fl = st["flavour"]  # 'a','ab' skip not-completed input (default); 'na','ns' are skip_not_completed=False steps
         steps.append(dict(name=i, kind="generic", skip=fl in ("a", "ab"), accepts={"a": [2], "na": [2], "ab": [2, 3], "ns": []}[fl],
                           rules=[[k, v] for k, v in st["rules"].items()], default=st["default"]))
+    if spec.get("fn_step"):
+        steps.append(dict(name=5, kind="generic", skip=True, accepts=[2, 3], rules=[], default=["ret", 2, 0]))
     return list(reversed(steps))
 
 
@@ -313,7 +318,11 @@ def _runs(ctx, budget):
             j = rng.randint(1, n_rec - 1)
             first = run_apply(ctx, tag, spec, members[:j], store_kind, False, mw)
             r["pre"] = dict(members=members[:j], res=first)
-            r["res"] = run_apply(ctx, tag, spec, members, store_kind, parallel, mw, outdir=first["outdir"], mode="a", par_kw=par_kw)
+            if store_kind == "dir" and rng.random() < 0.6:
+                # the re-run uses a CHANGED app (the failing records now fail differently): every not-completed record must name
+                # the CURRENT failure (directory store: a failed input is retried; sqlite never retries it, see apply_idempotent_resume_sqlite)
+                r["spec2"] = changed_spec(spec)
+            r["res"] = run_apply(ctx, tag, r.get("spec2", spec), members, store_kind, parallel, mw, outdir=first["outdir"], mode="a", par_kw=par_kw)
         else:
             r["res"] = run_apply(ctx, tag, spec, members, store_kind, parallel, mw, par_kw=par_kw)
         runs.append(r)
@@ -353,7 +362,7 @@ def correspondence(ctx):
     it = iter(firsts)
     second = []
     for r in reqs:
-        steps = model_steps(r["spec"])
+        steps = model_steps(r.get("spec2", r["spec"]))
         ms = r["members"]
         store = next(it)["store"] if r["pre"] else []
         # DataStoreSqlite: a stored not-completed record also makes _apply_to skip the input (model: hasAny); directory: completed only
@@ -516,7 +525,22 @@ def _corr_parallel_book(ctx, out):
 
 
 def _spec_brief(spec):
-    return dict(loader=spec["loader"], steps=spec["steps"], sleeps=spec["sleeps"])
+    return dict(loader=spec["loader"], steps=spec["steps"], sleeps=spec["sleeps"], fn_step=bool(spec.get("fn_step")))
+
+
+def changed_spec(spec):
+    """the same pipeline with every failing rule failing DIFFERENTLY (other message / other kind): the app's settings changed between runs"""
+    def ch(rule):
+        if rule[0] == "raise":
+            return ["raise", rule[1] + 100]
+        if rule[0] == "nc":
+            return ["nc", rule[1] + 100]
+        if rule[0] == "none":
+            return ["raise", 777]
+        return rule
+
+    return dict(spec, loader=dict(rules={k: ch(v) for k, v in spec["loader"]["rules"].items()}, default=spec["loader"]["default"]),
+                steps=[dict(st, rules={k: ch(v) for k, v in st["rules"].items()}) for st in spec["steps"]])
 
 
 def _corr_calls(ctx, out):
@@ -571,14 +595,18 @@ def spec_check(ctx, budget):
     _regression_witnesses(ctx, out)
     for r in _runs(ctx, budget):
         out["evaluations"] += 1
-        inner = build_inner(r["spec"], False)
         base = ctx.scratch / f"c14_{r['tag']}"
         expected = {}
+        cur = r.get("spec2", r["spec"])
         for m in r["members"]:
-            v = canon_value(inner(str(base / "in" / f"{_ident(m)}.txt")))
+            # a FRESH app for every input: "calling the app on that input alone"
+            v = canon_value(build_inner(cur, False)(str(base / "in" / f"{_ident(m)}.txt")))
             expected[m] = v
+        if r.get("spec2"):
+            bump(out, "resumed_with_changed_app", 1)
         inp = dict(kind="generated", tag=r["tag"], parallel=r["parallel"], max_workers=r["mw"], par_kw=r["par_kw"], store=r["store_kind"], members=r["members"],
-                   names=[_ident(m) for m in r["members"]], resumed=bool(r["pre"]), first=(r["pre"] or {}).get("members"), spec=_spec_brief(r["spec"]))
+                   names=[_ident(m) for m in r["members"]], resumed=bool(r["pre"]), first=(r["pre"] or {}).get("members"), spec=_spec_brief(r["spec"]),
+                   spec2=_spec_brief(r["spec2"]) if r.get("spec2") else None)
         ok = _compare_run(out, "spec", r["spec"], r["members"], r["res"], expected, "store vs app(x) alone", inp, "")
         if ok and (any(v[0] == "nc" for v in expected.values()) or r["parallel"]):
             out["nontrivial"].add(("spec", r["tag"]))
@@ -592,8 +620,65 @@ def spec_check(ctx, budget):
         f = check_witness(ctx, w)
         if f:
             out["failures"].append(f)
+    for writer in ("write_seqs", "write_json", "write_tabular", "write_db"):
+        out["evaluations"] += 1
+        f = _custom_id_case(ctx, dict(kind="custom_id", writer=writer))
+        if f:
+            out["failures"].append(f)
+        else:
+            out["nontrivial"].add(("custom_id", writer))
     _parallel_direct(ctx, out, budget)
     return out
+
+
+def _custom_id_case(ctx, w):
+    """apply_to with a custom id_from_source (directory-qualified identifiers, same file names in different directories, failures among
+    inputs that share a basename) through one of the writer apps: every input ends up under ITS identifier"""
+    from cogent3.app import io as app_io
+    from cogent3.app.data_store import DataStoreDirectory
+    from cogent3.app.sqlite_data_store import DataStoreSqlite
+
+    from . import c14_apps as A
+
+    ctx._c14wt = getattr(ctx, "_c14wt", 0) + 1
+    base = ctx.scratch / f"c14_cid_{ctx._c14wt}"
+    base.mkdir(exist_ok=True)
+    writer = w["writer"]
+    names = ["batch1/geneA", "batch1/geneB", "batch2/geneB", "batch2/geneC", "batch3/geneB"]
+    failing = {"batch1/geneB", "batch2/geneB"}
+    kind = {"write_seqs": "seqs", "write_tabular": "table"}.get(writer, "rec")
+    plan = {n: ("raise" if n in failing else kind) for n in names}
+    paths = [str(base / "in" / f"{n}.txt") for n in names]
+    if writer == "write_db":
+        ds = DataStoreSqlite(str(base / "out.sqlitedb"), mode="w")
+    else:
+        ds = DataStoreDirectory(str(base / "out"), mode="w", suffix={"write_seqs": "fasta", "write_json": "json", "write_tabular": "tsv"}[writer])
+    wapp = getattr(app_io, writer)(data_store=ds, id_from_source=A.dir_qualified_id)
+    app = A.c14_load_named(plan=plan) + wapp
+    exc = None
+    try:
+        app.apply_to(paths, id_from_source=A.dir_qualified_id, logger=False, show_progress=False)
+    except Exception as e:  # noqa
+        exc = f"{type(e).__name__}: {e}"[:160]
+
+    def uid(m):
+        u = os.path.basename(str(m.unique_id))
+        for ext in (".fasta", ".json", ".tsv"):
+            if u.endswith(ext):
+                u = u[: -len(ext)]
+        return u
+
+    got = dict(completed=sorted(uid(m) for m in ds.completed), not_completed=sorted(uid(m) for m in ds.not_completed))
+    if hasattr(ds, "close"):
+        ds.close()
+    exp = dict(completed=sorted(n.replace("/", "-") for n in names if n not in failing), not_completed=sorted(n.replace("/", "-") for n in failing))
+    if exc or got != exp:
+        out = new_outcome()
+        add_failure(out, "spec", f"{writer}: with a custom id_from_source (directory-qualified identifiers) the records are not stored one per input under "
+                    "the identifier apply_to derived from the input", dict(w, inputs=[n + ".txt" for n in names], failing=sorted(failing)), exp, dict(exc=exc, **got),
+                    sig=f"custom-id:{writer}:{'apply_to-raises' if exc else 'records-differ'}")
+        return out["failures"][0]
+    return None
 
 
 def _falsy_input_case(ctx, w):
@@ -771,6 +856,8 @@ def match_finding(f, k):
 def check_witness(ctx, w):
     if w.get("kind") == "writer_type":
         return _writer_type_case(ctx, dict(n=w["n"], bad=w["bad"]))
+    if w.get("kind") == "custom_id":
+        return _custom_id_case(ctx, w)
     if w.get("kind") == "falsy_input":
         return _falsy_input_case(ctx, w)
     if w.get("kind") == "source_inputs":
@@ -794,7 +881,7 @@ def replay(ctx, data):
         r = _writer_type_case(ctx, dict(n=inp["n"], bad=inp["bad"]))
         print(r)
         return r is not None
-    if inp.get("kind") in ("falsy_input", "source_inputs"):
+    if inp.get("kind") in ("falsy_input", "source_inputs", "custom_id"):
         r = check_witness(ctx, inp)
         print(r)
         return r is not None
